@@ -17,6 +17,9 @@ CONFIGS = [
     ("mfs+cachesub", {"storage": {"use_cache_subfolder_for_item": "True", "use_cache_subfolder_for_history": "True",
                                   "use_cache_subfolder_for_synctoken": "True"}}),
     ("mfs+mtime", {"storage": {"use_mtime_and_size_for_item_cache": "True"}}),
+    ("mfs+cachefolder", {"storage": {"filesystem_cache_folder": "@tmp"}}),
+    ("nolock+cachefolder+mtime", {"storage": {"type": "multifilesystem_nolock", "filesystem_cache_folder": "@tmp",
+                                              "use_mtime_and_size_for_item_cache": "True"}}),
 ]
 
 
@@ -189,11 +192,12 @@ def run(ctx):
     ctx.assumptions += ["sequential execution (concurrency is C09)", "bodies limited to the object pool (valid and invalid combinations)"]
     rng = ctx.rng("hist")
     n = ctx.n(40, 1500)
+    # quick: the two back-ends, plus one of the cache layouts in turn
     confs = CONFIGS[:2] if ctx.tier == "quick" else CONFIGS
     for h in range(n):
         seed_state = rng.getstate()
         length = rng.randint(5, 40)
-        for name, conf in confs:
+        for name, conf in (confs + [CONFIGS[2 + h % (len(CONFIGS) - 2)]] if ctx.tier == "quick" else confs):
             rng.setstate(seed_state)
             rng.randint(5, 40)
             run_history(ctx, rng, name, conf, length, h, check_post=(name == confs[0][0]))
